@@ -46,7 +46,7 @@ func mustObs(f func()) (v string) {
 }
 
 func init() {
-	register(&Prop{ID: "C09", N: c09N, Quick: c09Quick, Assume: []string{"stdlib regexp of the pinned toolchain is the reference model", "pattern strings come from the indexed universe G(P,i): valid patterns, one-token mutations, token soup, nesting/repetition/size limit families, random bytes"},
+	register(&Prop{ID: "C09", N: c09N, Quick: c09Quick, StallSec: 600, Assume: []string{"stdlib regexp of the pinned toolchain is the reference model", "pattern strings come from the indexed universe G(P,i): valid patterns, one-token mutations, token soup, nesting/repetition/size limit families, random bytes"},
 		Rule:   "one case = one string offered to Compile/MustCompile/CompilePOSIX/MustCompilePOSIX on both sides plus, when accepted, every metadata accessor, Marshal/Unmarshal/Copy behaviour on probe haystacks, and a QuoteMeta round trip on a generated string; one evaluation = one compared observation; distinct_nontrivial = distinct pattern strings, counting a string as non-trivial when it is rejected by stdlib or is accepted and has a capture group, a literal prefix or a flag (plain accepted literals are trivial)",
 		Triage: triageC09,
 		Run:    runC09})
@@ -75,15 +75,22 @@ func runC09(w *W, i uint64) {
 	sg := compileObs(func() (any, error) { r, e := coregex.Compile(p); cre = r; return r, e })
 	add("Compile", sw, sg)
 	heavy := fam == "repeat" || fam == "nesting" || fam == "bigalt" || fam == "longlit"
+	veryHeavy := utf8Cost(p) > 6000 // e.g. (\pL{20}){20}: seconds per Compile; POSIX parity is skipped for these
+	if veryHeavy {
+		w.Count("event:very-heavy-pattern(Compile parity only)", 1)
+	}
 	if !(heavy && sw == "ok") {
 		add("MustCompile", mustObs(func() { regexp.MustCompile(p) }), mustObs(func() { coregex.MustCompile(p) }))
 	}
 	var stdP *regexp.Regexp
 	var creP *coregex.Regex
-	pw := compileObs(func() (any, error) { r, e := regexp.CompilePOSIX(p); stdP = r; return r, e })
-	pg := compileObs(func() (any, error) { r, e := coregex.CompilePOSIX(p); creP = r; return r, e })
-	add("CompilePOSIX", pw, pg)
-	if !(heavy && pw == "ok") {
+	pw, pg := "skipped", "skipped"
+	if !veryHeavy {
+		pw = compileObs(func() (any, error) { r, e := regexp.CompilePOSIX(p); stdP = r; return r, e })
+		pg = compileObs(func() (any, error) { r, e := coregex.CompilePOSIX(p); creP = r; return r, e })
+		add("CompilePOSIX", pw, pg)
+	}
+	if !(heavy && pw == "ok") && !veryHeavy {
 		add("MustCompilePOSIX", mustObs(func() { regexp.MustCompilePOSIX(p) }), mustObs(func() { coregex.MustCompilePOSIX(p) }))
 	}
 	if sw == "ok" {
